@@ -324,6 +324,74 @@ func unitC17(e common.Env, p *common.Part) {
 			return env.nodes[2].addr
 		}, 600),
 	)
+	// --- scenario E: inbound peers that stall (before, during and after the TLS handshake, inside the application handshake,
+	// inside a frame) do not stop other peers from connecting to the same listener and delivering
+	for _, stall := range []string{"silent after TCP connect", "truncated TLS record header", "TLS done, no handshake", "handshake length prefix only", "valid handshake, frame header only"} {
+		stall := stall
+		scens = append(scens, scen{"inbound stall: " + stall, func() (string, string) {
+			env, err := newNetEnv(ids, doms)
+			if err != nil {
+				return "", ""
+			}
+			defer env.stopAll()
+			env.listen(1, true)
+			srv := env.nodes[1]
+			var open []net.Conn
+			defer func() {
+				for _, c := range open {
+					c.Close()
+				}
+			}()
+			for k := 0; k < 4; k++ {
+				switch stall {
+				case "silent after TCP connect", "truncated TLS record header":
+					c, err := net.Dial("tcp", srv.addr)
+					if err != nil {
+						return "", ""
+					}
+					open = append(open, c)
+					if stall == "truncated TLS record header" {
+						c.Write([]byte{0x16, 0x03, 0x01})
+					}
+				default:
+					c, binding, err := env.rawDial(srv.addr)
+					if err != nil {
+						return "", ""
+					}
+					open = append(open, c)
+					valid := encodeHandshake(honestAuth(env.nodes[2].ident, "d")(binding))
+					switch stall {
+					case "handshake length prefix only":
+						c.Write(valid[:2])
+					case "valid handshake, frame header only":
+						c.Write(valid)
+						c.Write([]byte{uint8(comm.MsgTypeMPC), 0xe8, 0x03, 0, 0})
+					}
+				}
+			}
+			time.Sleep(20 * time.Millisecond)
+			// now a healthy peer opens a NEW connection to the same listener
+			const count = 200
+			h := env.client(1, "d", honestAuth(env.nodes[3].ident, "d"))
+			go func() {
+				for i := 0; i < count; i++ {
+					d, t := mkPayload(64, 3, 0, uint32(i))
+					h.Send(1, t, d, 1)
+				}
+			}()
+			if !waitFor(30*time.Second, func() bool { return len(srv.received()) >= count }) {
+				return "healthy-peer-starved", fmt.Sprintf("a healthy peer that connected after 4 stalled inbound connections (%s) got %d of %d messages through in 30 s", stall, len(srv.received()), count)
+			}
+			for i, m := range srv.received() {
+				if m.From != 3 || binary.BigEndian.Uint32(m.Topic[8:]) != uint32(i) {
+					return "modified-or-reordered", "messages of the healthy peer out of order or misattributed while other inbound connections were stalled"
+				}
+			}
+			p.Count("messages_checked", count)
+			p.Count("fault_scenarios", 1)
+			return "", ""
+		}})
+	}
 	if e.Thorough() {
 		// saturate the queue of the unreachable peer: three 10 s stalls are expected (reported, not judged), never a panic
 		scens = append(scens, isolate("never listening, queue saturated (1003 messages)", func(env *netEnv) string {
